@@ -80,14 +80,16 @@ class Gir:
         if k == 'block':
             # block evaluating to a parser: { <stmts>; expr }
             if e.get('expr') is not None:
-                if e.get('inl') and e.get('stmts'):
+                if e.get('stmts') and (e.get('inl') or all(peel(st_).get('k') == 'let' for st_ in e['stmts'])):
                     # a helper expanded at its call (verif/normalise.py): `let param = <argument>;` binds the helper's parser parameters to the caller's parsers
                     ctx = dict(ctx, env=dict(ctx['env']))
                     for st in e['stmts']:
                         st = peel(st)
                         if st.get('k') == 'let' and st.get('init') is not None and (st.get('pat') or {}).get('k') == 'p_bind':
+                            ctx['vals'] = dict(ctx.get('vals') or {})
+                            ctx['vals'][st['pat']['name']] = st['init']          # (a byte class or a number held in a local of the helper)
                             ty_ = st['pat'].get('t') or st['init'].get('t') or ''
-                            if 'Parser' in ty_ or 'ErrMode' in ty_ or 'fn(' in ty_ or peel(st['init']).get('k') in ('mcall', 'closure', 'path', 'call'):
+                            if 'Parser' in ty_ or 'ErrMode' in ty_ or 'fn(' in ty_ or peel(st['init']).get('k') in ('mcall', 'closure', 'path', 'call', 'tup'):
                                 try:
                                     ctx['env'][st['pat']['name']] = self.conv(st['init'], ctx)
                                 except Exception:
@@ -347,6 +349,17 @@ class Gir:
             pat = e.get('pat', {})
             if pat.get('k') == 'p_bind' and 'init' in e:
                 ctx.setdefault('vals', {})[pat['name']] = e['init']
+                ini = peel(e['init'])
+                ity = (ini.get('t') or pat.get('t') or '')
+                if ini.get('k') in ('tup', 'call', 'mcall', 'path') and not any(self.is_input(a, ctx) for a in (ini.get('args') or [])) and \
+                        ('winnow::' in ity or 'Parser' in ity) and not ity.lstrip('&').startswith(('core::result::Result', 'core::option::Option', 'alloc::', 'core::ops::')) and \
+                        ini.get('name') not in ('parse_next', 'parse_peek'):
+                    # `let separated = (one_of(b'_'), cut_err(..));` — a parser held in a local, run where the local is used
+                    try:
+                        ctx['env'][pat['name']] = self.conv(e['init'], ctx)
+                        return T('empty')
+                    except Exception:
+                        pass
             if pat.get('k') == 'p_bind' and t['op'] != 'empty':
                 ctx['env']['@' + pat['name']] = t
             if 'else' in e and t['op'] != 'empty':
